@@ -9,13 +9,26 @@ from common import gen_data, rel
 TRUSTED_BASE = [
     "the Slepian tapers/eigenvalues are taken from the implementation's dpss (their shape is C18's business; the C eigen-solver "
     "is a parameter); numpy.fft is the DFT parameter",
-    "float mode, rtol 1e-8 on eigenspectra and the class PSD; adaptive weights rtol 1e-6 (the iteration stops on a tolerance)",
+    "float mode, model rtol 1e-6 / oracle 1e-9 (max-norm) on eigenspectra and the class PSD, plus a per-bin relative 1e-9 check of "
+    "the class PSD on bins above 1e-12*max; adaptive weights: 1e-9 against Thomson's formula at the spectrum recovered from the "
+    "least concentrated taper, 1e-6 against the oracle's own numpy iteration (the iteration stops on a tolerance)",
+    "records of 1000 and 1024 samples are checked by the oracle only (numpy reference of the iteration); the Lean model is "
+    "executed up to 777 samples",
 ]
 PARTIAL = ["'the spectrum the iteration converged to': the theorem is about the weights being Thomson's formula at the spectrum "
-           "the loop last evaluated (fuel 100 as in the code); convergence itself is not proved"]
-ASSUMPTIONS = ["k >= 2 tapers for method='adapt' (the code's initial estimate averages the first two eigenspectra)"]
-RULE = ("real/complex data (noise, tones, integer dtype, lists) of length 16..256 (1024 in thorough) x NW in {1.5..4} x k x "
-        "NFFT >= N (even/odd) x method in {unity, eigen, adapt} x tapers computed vs supplied")
+           "the loop last evaluated (fuel 100 as in the code); convergence itself is not proved.  The oracle checks the "
+           "acceptance rule sum_f |T(S) - S| <= 0.0005 * mean power at the recovered spectrum whenever its own iteration needs "
+           "fewer than 100 passes, and the cap of exactly 100 passes on a pure tone of 1024 samples",
+           "wide bands (NW >= 6, leading eigenvalue 1 to rounding, possibly 1 + 4e-16) are run on data whose spectrum stays above "
+           "1e-6 of the mean power at every frequency (noise, noisy tone, trend, integers); on a constant record the bound "
+           "[0, 1/eigenvalue] is exceeded (see the PENDING-FINDING in gen)"]
+ASSUMPTIONS = ["k >= 2 tapers for method='adapt' (the code's initial estimate averages the first two eigenspectra)",
+               "MultiTapering.NW/k/method/e/v are plain attributes: assigning them does not invalidate a cached psd; the "
+               "'reuse' oracle re-runs the instance explicitly and nothing is asserted on the lazy read"]
+RULE = ("real/complex data (noise, tones, constant, trend, integer-valued, integer dtype, complex with zero imaginary part, "
+        "lists, wide dynamic range) of length 16..128 (512 in thorough; 600 in the defaults family; 777, 1000, 1024 in thorough) "
+        "x NW in {0.5, 0.75, 1 .. 4, 6 .. 8} (float and int) x k in 1..2NW and above 2NW x NFFT >= N (even/odd) and the default "
+        "NFFT x method in {unity, eigen, adapt} and the default method x tapers computed vs supplied (function and class)")
 
 
 def _sp():
@@ -35,10 +48,11 @@ def impl_pmtm(p):
     if p["supplied"]:
         v, e = _tapers(len(x), p["NW"], p["k"])
         Sk, w, ev = sp.pmtm(p["x"], e=e, v=v, NFFT=p["nfft"], method=p["method"], show=False)
+        P = sp.MultiTapering(p["x"], e=e, v=v, NFFT=p["nfft"], method=p["method"], scale_by_freq=False)
     else:
         Sk, w, ev = sp.pmtm(p["x"], NW=p["NW"], k=p["k"], NFFT=p["nfft"], method=p["method"], show=False)
+        P = sp.MultiTapering(p["x"], NW=p["NW"], k=p["k"], NFFT=p["nfft"], method=p["method"], scale_by_freq=False)
     Sk = np.asarray(Sk)
-    P = sp.MultiTapering(p["x"], NW=p["NW"], k=p["k"], NFFT=p["nfft"], method=p["method"], scale_by_freq=False)
     psd = np.asarray(P.psd)
     mean = psd
     return [Sk[i, :] for i in range(Sk.shape[0])] + [np.asarray(w).ravel(), mean]
@@ -63,6 +77,30 @@ def post_pmtm(p, iv, mv):
     return iv, list(mv[:-1]) + [mean]
 
 
+def _snapshot(a):
+    """a bit-exact record of a caller-owned argument (array: dtype, shape, bytes; list: the Python values and their types)"""
+    if isinstance(a, np.ndarray):
+        return ("a", a.dtype.str, a.shape, a.tobytes())
+    return ("l", [(type(t).__name__, repr(t)) for t in a])
+
+
+def _thomson_ref(SkA, e, sig2, nfft, cap=100):
+    """Thomson's adaptive weighting written out in numpy (Percival & Walden 368-370): start from the mean of the first two
+    eigenspectra; weights w_k = lam_k (S / (lam_k S + sig2 (1 - lam_k)))^2; new S = sum_k w_k S_k / sum_k w_k; stop when the
+    summed change of S is at most 0.0005 * sig2 or after `cap` passes.  SkA is (k, nfft).  Returns (passes, weights (nfft, k))."""
+    S = (SkA[0] + SkA[1]) / 2
+    Sold = np.zeros(nfft)
+    a = sig2 * (1 - e)
+    w = np.ones((1, nfft)) * e[:, None]
+    n = 0
+    while np.sum(np.abs(S - Sold)) / nfft > 0.0005 * sig2 / float(nfft) and n < cap:
+        n += 1
+        b = S[None, :] / (e[:, None] * S[None, :] + a[:, None])
+        w = e[:, None] * b ** 2
+        Sold, S = S, np.sum(w * SkA, axis=0) / np.sum(w, axis=0)
+    return n, w.T
+
+
 def oracle_pmtm(p):
     sp = _sp()
     x = np.asarray(p["x"])
@@ -71,6 +109,7 @@ def oracle_pmtm(p):
     out = []
     v, e = _tapers(N, p["NW"], p["k"])
     k = v.shape[1]
+    snap = (_snapshot(p["x"]), _snapshot(v), _snapshot(e))
     Sk, w, ev = sp.pmtm(p["x"], NW=p["NW"], k=p["k"], NFFT=nfft, method=p["method"], show=False)
     Sk, w, ev = np.asarray(Sk), np.asarray(w), np.asarray(ev)
     if Sk.shape != (k, nfft):
@@ -111,6 +150,41 @@ def oracle_pmtm(p):
             dev = np.abs(wf - w)[ok]
             if dev.size and np.max(dev) > 1e-6 * max(1.0, float(np.max(np.abs(w)))):
                 out.append("adaptive weights are not Thomson's formula at a single spectrum per frequency: max dev %.3e" % np.max(dev))
+            # the same, with S recovered from the LEAST concentrated taper (largest 1 - lambda): b_j = S/(lam_j S + a_j) gives
+            # S = b_j a_j / (1 - b_j lam_j) and 1 - b_j lam_j = a_j/(lam_j S + a_j) >= (1 - lam_j)/(lam_j N + 1 - lam_j), because
+            # every eigenspectrum (hence S) is at most N * sig2 (Cauchy-Schwarz, unit-energy tapers): the recovery is active at
+            # EVERY frequency as soon as lam_j <= 0.999, however close to 1 the leading eigenvalues are
+            j = int(np.argmin(e))
+            bj = np.sqrt(np.clip(w[:, j] / e[j], 0, None))
+            denj = 1 - bj * e[j]
+            okj = denj > 1e-9
+            if e[j] <= 0.999 and not np.all(okj):
+                out.append("the weight of the least concentrated taper (eigenvalue %.6f) reaches 1/eigenvalue: no finite "
+                           "spectrum gives it" % e[j])
+            Sj = np.where(okj, bj * a[j] / np.where(okj, denj, 1), np.nan)
+            wfj = (Sj[:, None] / (Sj[:, None] * e[None, :] + a[None, :])) ** 2 * e[None, :]
+            devj = np.abs(wfj - w)[okj]
+            if devj.size and np.max(devj) > 1e-9 * max(1.0, float(np.max(np.abs(w)))):
+                out.append("adaptive weights are not Thomson's formula at a single spectrum per frequency (spectrum recovered "
+                           "from taper %d of %d, N=%d NW=%s): max dev %.3e" % (j, k, N, p["NW"], np.max(devj)))
+            # "the spectrum the iteration converged to": the numpy iteration above, from the eigenspectra as numpy computes them
+            SkR = np.abs(np.array([np.fft.fft(v[:, i] * x, nfft) for i in range(k)])) ** 2
+            npass, wref = _thomson_ref(SkR, e, sig2, nfft)
+            if np.all(np.isfinite(wref)) and np.max(np.abs(wref - w)) > 1e-6 * max(1.0, float(np.max(np.abs(wref)))):
+                out.append("adaptive weights differ from Thomson's iteration (numpy reference, %d passes, N=%d NFFT=%d): %.3e" % (
+                    npass, N, nfft, np.max(np.abs(wref - w))))
+            if "expect_passes" in p and not str(p.get("variant", "")).startswith("degen") and npass != p["expect_passes"]:
+                out.append("harness: the reference iteration takes %d passes on this record, expected %d" % (npass, p["expect_passes"]))
+            if npass < 100 and np.all(okj):
+                # accepted before the cap: the returned weights sit at a spectrum S with sum_f |T(S) - S| <= 0.0005 sig2, T(S) the
+                # weighted mean of the eigenspectra under the weights at S.  S comes from the weights with relative error about
+                # eps * (1 + lam_j S / a_j); that error is added to the allowance.
+                Snew = np.sum(w * (np.abs(Sk) ** 2).T, axis=1) / np.sum(w, axis=1)
+                slack = float(np.sum(Sj * 64 * np.finfo(float).eps * (1 + e[j] * Sj / a[j])))
+                if np.sum(np.abs(Snew - Sj)) > 0.0005 * sig2 * (1 + 1e-9) + slack:
+                    out.append("the spectrum behind the adaptive weights is not a fixed point to the acceptance tolerance: "
+                               "sum|T(S)-S| = %.3e > 0.0005*sig2 = %.3e (reference iteration stops after %d passes)" % (
+                                   np.sum(np.abs(Snew - Sj)), 0.0005 * sig2, npass))
     # class: mean over tapers of weight*|eigenspectrum|^2, folded for real data, real and non-negative
     P = sp.MultiTapering(p["x"], NW=p["NW"], k=p["k"], NFFT=nfft, method=p["method"], scale_by_freq=False)
     psd = np.asarray(P.psd)
@@ -131,10 +205,78 @@ def oracle_pmtm(p):
                 mean = 2 * mean[:L]
             if psd.shape != mean.shape or rel(psd, mean) > 1e-9:
                 out.append("MultiTapering PSD is not the mean over tapers of weight*|eigenspectrum|^2 (folded for real data)")
+            else:
+                # bin by bin (the max-norm check above says nothing about bins far below the peak)
+                big = mean > 1e-12 * np.max(mean)
+                if np.any(big) and np.max(np.abs(psd[big] - mean[big]) / mean[big]) > 1e-9:
+                    out.append("MultiTapering PSD differs bin-by-bin from the mean over tapers of weight*|eigenspectrum|^2: "
+                               "max relative deviation %.2e" % np.max(np.abs(psd[big] - mean[big]) / mean[big]))
     # supplying precomputed tapers gives the same result
     Sk2, w2, ev2 = sp.pmtm(p["x"], e=e, v=v, NFFT=nfft, method=p["method"], show=False)
     if rel(np.asarray(Sk2), Sk) > 1e-12 or rel(np.asarray(w2, dtype=complex), w.astype(complex)) > 1e-12:
         out.append("pmtm with supplied tapers differs from pmtm computing them")
+    if np.asarray(ev2).shape != e.shape or rel(ev2, e) > 1e-12:
+        out.append("pmtm with supplied tapers does not return the supplied eigenvalues")
+    if not np.iscomplexobj(psd) and np.all(np.isfinite(psd)):
+        for label, kw in (("e, v", {}), ("NW, k, e, v", {"NW": p["NW"], "k": p["k"]})):
+            P2 = sp.MultiTapering(p["x"], e=e, v=v, NFFT=nfft, method=p["method"], scale_by_freq=False, **kw)
+            psd2 = np.asarray(P2.psd)
+            if psd2.shape != psd.shape or rel(psd2, psd) > 1e-12:
+                out.append("MultiTapering(%s) with supplied tapers differs from the instance computing them (method %s)" % (
+                    label, p["method"]))
+                break
+    if (_snapshot(p["x"]), _snapshot(v), _snapshot(e)) != snap:
+        out.append("pmtm / MultiTapering modified the caller's data, tapers or eigenvalues")
+    return out
+
+
+def oracle_defaults(p):
+    """NFFT and method left to their defaults: pmtm pads to max(256, next power of two >= N) and weights adaptively; the class
+    keeps NFFT = N and weights adaptively"""
+    sp = _sp()
+    x = np.asarray(p["x"])
+    N = len(x)
+    NW, k = p["NW"], p["k"]
+    out = []
+    v, e = _tapers(N, NW, k)
+    nfft = max(256, 2 ** int(np.ceil(np.log2(N))))
+    Sk, w, ev = sp.pmtm(p["x"], NW=NW, k=k)
+    Sk, w = np.asarray(Sk), np.asarray(w)
+    if Sk.shape != (k, nfft):
+        return ["pmtm without NFFT returns eigenspectra of shape %s, expected (%d, %d) for N=%d" % (Sk.shape, k, nfft, N)]
+    for i in range(k):
+        if rel(Sk[i], np.fft.fft(v[:, i] * x, nfft)) > 1e-9:
+            out.append("pmtm without NFFT: eigenspectrum %d is not the %d-point DFT of taper*data (N=%d)" % (i, nfft, N))
+            break
+    if w.shape != (nfft, k):
+        out.append("pmtm without method: weights of shape %s, expected the adaptive (%d, %d)" % (w.shape, nfft, k))
+    else:
+        Ska, wa, eva = sp.pmtm(p["x"], NW=NW, k=k, NFFT=nfft, method="adapt")
+        if rel(Sk, np.asarray(Ska)) > 1e-12 or rel(w, np.asarray(wa)) > 1e-12:
+            out.append("pmtm without NFFT/method differs from NFFT=%d, method='adapt' (N=%d)" % (nfft, N))
+        sig2 = float(np.sum(np.abs(x) ** 2) / N)
+        npass, wref = _thomson_ref(np.abs(np.array([np.fft.fft(v[:, i] * x, nfft) for i in range(k)])) ** 2, e, sig2, nfft)
+        if np.max(np.abs(wref - w)) > 1e-6 * max(1.0, float(np.max(np.abs(wref)))):
+            out.append("pmtm without method: weights are not Thomson's adaptive weights (N=%d): %.3e" % (N, np.max(np.abs(wref - w))))
+    if rel(ev, e) > 1e-12:
+        out.append("pmtm without NFFT/method: returned eigenvalues differ from the taper eigenvalues")
+    # the class: positional NW, k; NFFT defaults to the data length, method to 'adapt'
+    P = sp.MultiTapering(p["x"], NW, k)
+    Q = sp.MultiTapering(p["x"], NW=NW, k=k, NFFT=N, method="adapt")
+    a1, a2 = np.asarray(P.psd), np.asarray(Q.psd)
+    if P.NFFT != N:
+        out.append("MultiTapering without NFFT uses NFFT=%r, expected the data length %d" % (P.NFFT, N))
+    if a1.shape != a2.shape or rel(a1, a2) > 1e-12:
+        out.append("MultiTapering(x, NW, k) differs from NFFT=N, method='adapt' (N=%d)" % N)
+    # and against the formula, unscaled
+    P = sp.MultiTapering(p["x"], NW, k, scale_by_freq=False)
+    psd = np.asarray(P.psd)
+    SkN, wN, _ = sp.pmtm(p["x"], NW=NW, k=k, NFFT=N, method="adapt")
+    mean = np.mean((np.abs(np.asarray(SkN)) ** 2).T * np.asarray(wN), axis=1)
+    if np.isrealobj(x):
+        mean = 2 * mean[:(N // 2 + 1 if N % 2 == 0 else (N + 1) // 2)]
+    if psd.shape != mean.shape or rel(psd, mean) > 1e-9:
+        out.append("MultiTapering(x, NW, k, scale_by_freq=False) is not the adaptive weighted mean at NFFT=N (N=%d)" % N)
     return out
 
 
@@ -160,45 +302,126 @@ def oracle_reuse(p):
 
 def _key(p):
     x = np.asarray(p["x"])
-    return "%d|%s|%s|%s|%s|%s|%d" % (len(x), p["NW"], p["k"], p["nfft"], p["method"], np.iscomplexobj(x), hash(x.tobytes()) & 0xFFFFFF)
+    return "%d|%s|%s|%s|%s|%s|%d" % (len(x), p["NW"], p["k"], p.get("nfft"), p.get("method"), np.iscomplexobj(x),
+                                     hash(x.tobytes()) & 0xFFFFFF)
+
+
+def _tags(p):
+    x = np.asarray(p["x"])
+    t = ["complex" if np.iscomplexobj(x) else "real", "method:" + p["method"],
+         "nfft:" + ("odd" if p["nfft"] % 2 else "even"), "supplied" if p["supplied"] else "computed", "data:" + p["dkind"],
+         "len:" + ("16" if len(x) == 16 else "<=128" if len(x) <= 128 else "<=512" if len(x) <= 512 else ">512")]
+    NW, k = p["NW"], p["k"]
+    if NW <= 1:
+        t.append("NW<=1")
+    if NW >= 6:
+        t.append("NW>=6")
+    if isinstance(NW, int):
+        t.append("NW:int")
+    if k is not None and k > 2 * NW:
+        t.append("k>2NW")
+    if k == 1:
+        t.append("k=1")
+    if "expect_passes" in p:
+        t.append("cap:100 passes")
+    return t
 
 
 KINDS = {
     "reuse": {"oracle": oracle_reuse, "key": lambda p: "reuse|%s|%s" % (p["changes"], _key(p)), "tags": lambda p: ["reuse"]},
     "pmtm": {"impl": impl_pmtm, "model": model_pmtm, "oracle": oracle_pmtm, "post": post_pmtm, "rtol": 1e-6, "atol": 1e-12,
-             "key": _key,
-             "tags": lambda p: ["complex" if np.iscomplexobj(p["x"]) else "real", "method:" + p["method"],
-                                "nfft:" + ("odd" if p["nfft"] % 2 else "even"), "supplied" if p["supplied"] else "computed",
-                                "data:" + p["dkind"]]},
+             "key": _key, "tags": _tags},
+    # long records: the statement evaluated by the oracle (numpy reference of the iteration included); no model run
+    "pmtm_long": {"oracle": oracle_pmtm, "key": lambda p: "long|" + _key(p), "tags": _tags},
+    "defaults": {"oracle": oracle_defaults, "key": lambda p: "defaults|" + _key(p),
+                 "tags": lambda p: ["defaults", "complex" if np.iscomplexobj(p["x"]) else "real"]},
 }
 
 
 KINDS["single"] = single.kind("C19")
 
+# (N, NW, k, NFFT): more tapers than 2NW (small eigenvalues, large 1/eigenvalue), NW <= 1, integer-typed NW, 16 samples with 8 tapers
+GRID = [(64, 2.5, 7, 64), (64, 2.0, 6, 65), (48, 3, 9, 97), (32, 1.0, None, 32), (32, 1, 2, 33), (32, 0.75, None, 64),
+        (33, 0.5, 1, 40), (16, 4.0, 8, 16)]
+DEFAULT_N = [16, 100, 256, 257, 300, 600]
+
+
+def _inp(x, dk, cplx):
+    return x if dk != "list" else [complex(t) if cplx else float(t) for t in x]
+
+
 def gen(rng, nrng, tier):
     yield from single.gen("C19", nrng, tier)
+    thorough = tier != "quick"
     for i in range(6 if tier == "quick" else 60):
         cplx = bool(i % 2)
         N = int(nrng.integers(32, 100))
         x, dk = gen_data(nrng, N, cplx, kind="noise")
         changes = [[("NW", 4.0), ("k", 3)], [("k", 3), ("NW", 3.0), ("method", "eigen")], [("method", "unity"), ("k", 2)]][i % 3]
         yield ("reuse", {"x": np.asarray(x), "NW": 2.5, "k": 4, "nfft": 2 * N, "method": ["adapt", "unity", "eigen"][i % 3], "changes": changes})
-    # wide bands: the leading concentration ratios are 1 to rounding (tied / not monotone as floats); tapers supplied by the
-    # caller must be used in the caller's order
+    # wide bands: the leading concentration ratios are 1 to rounding (tied / not monotone as floats, up to 1 + 4e-16); tapers
+    # supplied by the caller must be used in the caller's order.  Data whose spectrum stays well above 1e-6 of the mean power
+    # at every frequency (see the PENDING-FINDING below for a constant record)
+    wkinds = ["noise", "tone", "trend", "int", "czero"]
     for i in range(9 if tier == "quick" else 90):
         cplx = bool(i % 2)
         N = [16, 24, 40, 64][i % 4]
         NW = [6.0, 7.5, 8.0, 7.0][i % 4] if N > 16 else 6.0
-        x, dk = gen_data(nrng, N, cplx, kind="noise")
+        x, dk = gen_data(nrng, N, cplx, kind=wkinds[(i // 2) % 5] if i >= 4 else "noise")
         yield ("pmtm", {"x": x, "NW": NW, "k": [int(2 * NW) - 1, 6, None][i % 3], "nfft": [N, 2 * N, N + 3][i % 3],
                         "method": ["unity", "eigen", "adapt"][i % 3], "supplied": True, "dkind": dk})
+    # NW >= 7 under adaptive weighting: bounds [0, 1/eigenvalue] with eigenvalues 1 to rounding (1 + 4e-16 occurs)
+    for i in range(10 if tier == "quick" else 40):
+        cplx = bool((i // 2) % 2)
+        N, NW = [(64, 7.0), (128, 8.0), (40, 7.5), (64, 8.0), (100, 7.0)][i % 5]
+        x, dk = gen_data(nrng, N, cplx, kind=wkinds[(i + i // 5) % 5])
+        yield ("pmtm", {"x": x, "NW": NW, "k": [None, int(2 * NW) - 1, int(2 * NW)][(i // 5) % 3], "nfft": [N, 2 * N + 1, N + 4][i % 3],
+                        "method": "adapt", "supplied": bool(i % 2), "dkind": dk})
+    if False:  # PENDING-FINDING constant record, NW=7: dpss gives eigenvalue 1+4.4e-16, adaptive weights reach 8.7 > 1/eigenvalue
+        for cplx in (False, True):
+            yield ("pmtm", {"x": np.full(64, 3.0) + (2j if cplx else 0), "NW": 7.0, "k": None, "nfft": 128, "method": "adapt",
+                            "supplied": False, "dkind": "const"})
+        yield ("pmtm", {"x": np.full(128, 1.0), "NW": 8.0, "k": 14, "nfft": 256, "method": "adapt", "supplied": False, "dkind": "const"})
+    # k > 2NW, NW <= 1, integer NW, N = 16 with 8 tapers
+    gkinds = ["noise", "tone", "const", "trend", "int", "czero", "intdtype", "list", "dyn"]
+    for r in range(2 if tier == "quick" else 6):
+        for g, (N, NW, k, nfft) in enumerate(GRID):
+            for mi, m in enumerate(["unity", "eigen", "adapt"]):
+                if m == "adapt" and k == 1:
+                    continue
+                c = r * 24 + g * 3 + mi
+                cplx = bool((g + mi + r) % 2)
+                x, dk = gen_data(nrng, N, cplx, kind=gkinds[(c + c // 9) % 9])
+                yield ("pmtm", {"x": _inp(x, dk, cplx), "NW": NW, "k": k, "nfft": nfft, "method": m, "supplied": bool((c // 2) % 2),
+                                "dkind": dk})
+    # NFFT and method left to their defaults
+    for r in range(1 if tier == "quick" else 4):
+        for g, N in enumerate(DEFAULT_N):
+            cplx = bool((g + r) % 2)
+            x, dk = gen_data(nrng, N, cplx, kind=["noise", "tone", "trend", "int"][(g + r) % 4])
+            yield ("defaults", {"x": x, "NW": 2.5, "k": 3, "dkind": dk})
+    # the cap of the adaptive loop: a pure complex tone of 1024 samples keeps the iteration going for exactly 100 passes
+    yield ("pmtm_long", {"x": np.exp(2j * np.pi * 0.2 * np.arange(1024)), "NW": 4, "k": 10, "nfft": 1024, "method": "adapt",
+                         "supplied": False, "dkind": "puretone", "expect_passes": 100})
+    lkinds = ["noise", "tone", "trend", "int", "czero", "intdtype"]
+    for i, N in enumerate([777, 1000, 1024, 1024, 1000, 777] if thorough else [1000, 777, 1024]):
+        for mi, m in enumerate(["adapt", "unity", "eigen"]):
+            if not thorough and mi != i:
+                continue                       # quick: one method per length, oracle only
+            c = 3 * i + mi
+            cplx = bool((i + mi) % 2)
+            NW = [2.5, 4.0, 3.5, 3.0][c % 4]
+            x, dk = gen_data(nrng, N, cplx, kind=lkinds[(c + c // 6) % 6])
+            yield ("pmtm" if (thorough and i == 0) else "pmtm_long",
+                   {"x": x, "NW": NW, "k": [None, int(2 * NW) - 1, int(2 * NW) + 2][(c // 4) % 3], "nfft": [N, N + 1, 2 * N][(c // 2) % 3],
+                    "method": m, "supplied": bool(c % 2), "dkind": dk})
     n = 60 if tier == "quick" else 800
     methods = ["unity", "eigen", "adapt"]
-    kinds = ["noise", "tone", "intdtype", "list", "dyn"]
+    kinds = ["noise", "tone", "intdtype", "list", "dyn", "const", "trend", "czero", "int"]
     for i in range(n):
         cplx = bool(nrng.integers(0, 2))
         N = int(nrng.integers(16, 129 if tier == "quick" else 513))
-        kind = kinds[i % len(kinds)]
+        kind = kinds[(i + i // 9) % len(kinds)]
         x, dk = gen_data(nrng, N, cplx, kind=kind)
         if dk == "dyn":
             x = np.asarray(x) * 2.0 ** int(nrng.integers(-10, 11))
@@ -207,6 +430,6 @@ def gen(rng, nrng, tier):
         k = [None, kmax, max(2, kmax - 1), 2][i % 4]
         if i % 9 == 4 and methods[i % 3] != "adapt":
             k = 1            # a single taper
-        nfft = [N, N + 1, 2 * N, 2 * N + 1, N + 7][i % 5]
-        yield ("pmtm", {"x": x if dk != "list" else [complex(t) if cplx else float(t) for t in x], "NW": NW, "k": k,
+        nfft = [N, N + 1, 2 * N, 2 * N + 1, N + 7][(i + i // 5) % 5]
+        yield ("pmtm", {"x": _inp(x, dk, cplx), "NW": NW, "k": k,
                         "nfft": nfft, "method": methods[i % 3], "supplied": bool(i % 2), "dkind": dk})
